@@ -42,6 +42,8 @@ type Engine struct {
 	pkgs        map[string]*packages.Package
 	contracts   map[string]*Contract // pkg::Key
 	preds       map[string]*Contract // pkg::name and ::name
+	appended    map[string]bool // fields that are the first argument of an append somewhere in the loaded repo packages
+	monitors    map[string]*Contract // mutex heap key ("mutex:<pkg>.<Type>.<field>") -> monitor block
 	lemmas      map[string]*Contract
 	allBlocks   []*Contract
 	preludeFuns map[string]funSig
@@ -471,6 +473,7 @@ func (e *Engine) readAllContracts() error {
 	e.contracts = map[string]*Contract{}
 	e.preds = map[string]*Contract{}
 	e.lemmas = map[string]*Contract{}
+	e.monitors = map[string]*Contract{}
 	for _, f := range files {
 		pp, err := pkgPathOfDir(filepath.Dir(f))
 		if err != nil {
@@ -492,6 +495,8 @@ func (e *Engine) readAllContracts() error {
 				}
 			case "lemma":
 				e.lemmas[pp+"::"+c.Name] = c
+			case "monitor":
+				e.monitors["mutex:"+shortPkg(pp)+"."+strings.TrimPrefix(c.RecvType, "*")+"."+c.Name] = c
 			}
 		}
 	}
@@ -550,4 +555,44 @@ func (e *Engine) dirOfPkg(pp string) string {
 		}
 	}
 	return ""
+}
+
+// fieldAppended reports whether some loaded in-repo package contains append(x.f, ...) for field f.
+func (e *Engine) fieldAppended(f *types.Var) bool {
+	key := func(v *types.Var) string {
+		p := ""
+		if v.Pkg() != nil {
+			p = v.Pkg().Path()
+		}
+		return fmt.Sprintf("%s.%s@%d", p, v.Name(), v.Pos())
+	}
+	if e.appended == nil {
+		e.appended = map[string]bool{}
+		for _, pk := range e.pkgs {
+			if pk == nil || pk.TypesInfo == nil {
+				continue
+			}
+			for _, file := range pk.Syntax {
+				ast.Inspect(file, func(n ast.Node) bool {
+					c, ok := n.(*ast.CallExpr)
+					if !ok || len(c.Args) == 0 {
+						return true
+					}
+					id, ok := c.Fun.(*ast.Ident)
+					if !ok || id.Name != "append" {
+						return true
+					}
+					if se, ok := ast.Unparen(c.Args[0]).(*ast.SelectorExpr); ok {
+						if sel := pk.TypesInfo.Selections[se]; sel != nil && sel.Kind() == types.FieldVal {
+							if v, ok := sel.Obj().(*types.Var); ok {
+								e.appended[key(v)] = true
+							}
+						}
+					}
+					return true
+				})
+			}
+		}
+	}
+	return e.appended[key(f)]
 }
